@@ -6,7 +6,7 @@
    No proofs here. *)
 From Coq Require Import NArith Arith List String Bool.
 From Verif Require Import Base.Chars Base.Show Base.StrX Text.FilePos Text.FileText Text.Split Text.Wire
-                          Imports.Import Imports.ImportSet Imports.Format Imports.Wire
+                          Imports.Import Imports.ImportSet Imports.Format Imports.ImportLex Imports.Wire
                           S2S.Blocks S2S.Insert.
 Import ListNotations.
 Open Scope string_scope.
@@ -45,6 +45,90 @@ Fixpoint pretty_closed (P : params) (bs : list cblock) : option (list str) :=
       end
   end.
 
+(* ---------- second pass / fixed point (theorem in S2S/ClosedProofs.v) ---------- *)
+
+Definition import_eqb (i j : import) : bool :=
+  str_eqb (fullname i) (fullname j) && str_eqb (import_as i) (import_as j).
+Fixpoint imports_eqb (a b : list import) : bool :=
+  match a, b with
+  | [], [] => true
+  | x :: a', y :: b' => import_eqb x y && imports_eqb a' b'
+  | _, _ => false
+  end.
+
+
+(* oracle_compositional, per block: what CPython's node list for the FIRST pass's output must make of
+   the region a block was printed to.  A non-import block's printed text is again a (verbatim)
+   non-import block; the text an import block was printed to is again one import block, and the imports
+   of its statements are the ones the C11 model's parser reads from that text. *)
+Definition expected_blockb (b1 : cblock) (x : str) (b2 : cblock) : bool :=
+  match b1, b2 with
+  | BOther _ _, BOther inp2 o2 => str_eqb o2 x
+  | BImports _ _, BImports inp2 s2 =>
+      match parse_imports x with
+      | Some S' => imports_eqb s2 (from_imports true S')
+      | None => false
+      end
+  | _, _ => false
+  end.
+
+Fixpoint oracle_compositionalb (bs1 : list cblock) (xs : list str) (bs2 : list cblock) : bool :=
+  match bs1, xs, bs2 with
+  | [], [], [] => true
+  | b1 :: r1, x :: rx, b2 :: r2 => expected_blockb b1 x b2 && oracle_compositionalb r1 rx r2
+  | _, _, _ => false
+  end.
+
+Definition block_imports (b : cblock) : list import :=
+  match b with BImports _ s => s | BOther _ _ => [] end.
+
+
+(* the closed reformat tool on a PythonBlock *)
+Definition reformat_closed (P : params) (ns : list (snode (list import))) (t : text) : option str :=
+  match statements ns t with
+  | None => None
+  | Some ps => option_map (@List.concat ch) (pretty_closed P (preprocess mk_cset ps))
+  end.
+
+
+Fixpoint lead_dots (s : str) : nat :=
+  match s with
+  | c :: r => if (c =? c_dot)%N then S (lead_dots r) else 0
+  | [] => 0
+  end.
+
+
+Definition split_last (l : list str) : option (list str * str) :=
+  match rev l with x :: r => Some (rev r, x) | [] => None end.
+
+
+Definition is_nil {A} (l : list A) : bool := match l with [] => true | _ => false end.
+
+Definition wf_modb (lvl : nat) (md : list str) : bool :=
+  forallb valid_ident md && (negb (Nat.eqb lvl 0) || negb (is_nil md)).
+
+
+Definition wf_importb (i : import) : bool :=
+  let f := fullname i in
+  let a := import_as i in
+  let lvl := lead_dots f in
+  match split_last (split_on c_dot (skipn lvl f)) with
+  | None => false
+  | Some (md, mem) =>
+      if str_eqb a s_star then str_eqb mem s_star && wf_modb lvl md
+      else if str_eqb f a then (Nat.eqb lvl 0) && forallb valid_ident (md ++ [mem])
+      else if (Nat.eqb lvl 0) && is_nil md then valid_ident mem && valid_ident a
+      else wf_modb lvl md && valid_ident mem && valid_ident a
+  end.
+
+
+Definition sets_okb (bs : list cblock) : bool :=
+  forallb (fun b => match b with
+                    | BImports _ s => negb (is_nil s) && forallb wf_importb s
+                    | BOther _ _ => true
+                    end) bs.
+
+
 (* nodes arrive as (lineno, colno, last_lineno, kind code, imports of the statement) *)
 Definition ckind (c : nat) (imps : list (str * str)) : nkind (list import) :=
   match c with
@@ -72,4 +156,31 @@ Definition run_reformat_closed (s : str) (sl sc : nat) (nodes : list (nat * nat 
                         | Some xs => show_str (List.concat xs)
                         | None => "null"
                         end)]
+  end.
+
+(* first pass with node list `nodes`, then the second pass over its output with the node list `nodes2`
+   CPython produced for that output; reports the evaluated hypotheses of reformat_idempotent_closed *)
+Definition run_idem_closed (s : str) (sl sc : nat) (nodes nodes2 : list (nat * nat * nat * nat * list (str * str)))
+                           (P : params) : string :=
+  let t := of_str s (mkPos sl sc) in
+  match statements (mk_cnodes nodes) t with
+  | None => "null"
+  | Some ps =>
+      let bs := preprocess mk_cset ps in
+      match pretty_closed P bs with
+      | None => "null"
+      | Some xs =>
+          let o := List.concat xs in
+          let t2 := of_str o (mkPos 1 1) in
+          match statements (mk_cnodes nodes2) t2 with
+          | None => show_obj [("out1", show_str o); ("sets_ok", show_bool (sets_okb bs)); ("compositional", "null"); ("out2", "null")]
+          | Some ps2 =>
+              let bs2 := preprocess mk_cset ps2 in
+              show_obj [("out1", show_str o);
+                        ("sets_ok", show_bool (sets_okb bs));
+                        ("compositional", show_bool (oracle_compositionalb bs xs bs2));
+                        ("out2", match reformat_closed P (mk_cnodes nodes2) t2 with
+                                 | Some o2 => show_str o2 | None => "null" end)]
+          end
+      end
   end.
